@@ -533,6 +533,19 @@ def to_koto(e, minimal_parens=False):
 
 
 # ---------------------------------------------------------------- generators
+def ends_with_loop(e):
+    k = e[0]
+    if k in ("while", "until", "for"):
+        return True
+    if k == "block":
+        return bool(e[1]) and ends_with_loop(e[1][-1])
+    if k == "if" or k == "switch":
+        return any(ends_with_loop(b) for _, b in e[1]) or (e[2] is not None and ends_with_loop(e[2]))
+    if k == "assign":
+        return False
+    return False
+
+
 class Gen:
     """seeded generator of mostly-valid core programs.  Variables are tracked by
     the kind of value they hold so that most programs run without type errors."""
@@ -571,7 +584,8 @@ class Gen:
             return ("int", -self.r.below(10) - 1)
         if c < 17:
             return ("int", self.pick([255, 256, 1000, 65535, 2**31, 2**53 + 1]))
-        return ("int", self.pick([2**63 - 1, -(2**63), 2**62, -(2**62) - 7]))
+        # (-2^63 cannot be written as a literal: 9223372036854775808 lexes as a float)
+        return ("int", self.pick([2**63 - 1, -(2**63) + 1, 2**62, -(2**62) - 7]))
 
     def int_expr(self, d):
         if d <= 0 or self.chance(1, 4):
@@ -746,9 +760,13 @@ class Gen:
                             ("list", [self.int_expr(0) for _ in range(self.r.below(4))]),
                             ("tuple", [self.int_expr(0) for _ in range(self.r.below(4))]),
                             ("range", ("int", 3), ("int", 0), False)])
+            # the loop variable's value after the loop is not defined by the guide
+            for k in self.vars:
+                if x in self.vars[k]:
+                    self.vars[k].remove(x)
             return ("for", [("tid", x, None)], it, body)
         if c == 19 and self.loop_depth > 0:
-            return ("if", [(self.bool_expr(1), ("block", [self.pick([("break", None), ("continue",), ("break", self.int_expr(0))])]))], None)
+            return ("if", [(self.bool_expr(1), ("block", [self.pick([("break", None), ("continue",)])]))], None)
         if c == 20 and d > 0:
             # loop with break value, assigned
             i = self.fresh("int")
@@ -824,7 +842,12 @@ class Gen:
         afterwards (reading a conditionally-unassigned local is not defined by the
         guide, so generated programs never do it)"""
         saved = {k: list(v) for k, v in self.vars.items()}
-        b = ("block", [self.stmt(d) for _ in range(n)])
+        stmts = [self.stmt(d) for _ in range(n)]
+        # the value of a loop that ends without `break` is not defined by the guide:
+        # never leave one in value position
+        if ends_with_loop(stmts[-1]):
+            stmts.append(self.int_expr(0))
+        b = ("block", stmts)
         for k in self.vars:
             self.vars[k] = [v for v in self.vars[k] if v in saved[k]]
         # a variable re-declared with another kind inside the block: its kind is now unknown
